@@ -73,6 +73,14 @@ def big_result(mw=1, n=3000, cap=1024):
              [NEW, sub("a", "big", n), sub("b", "ok", 2), WAIT, shutdown(True)])
 
 
+def big_and_small(mw=2, n=3000, cap=1024, small=3):
+    """One result larger than the result pipe (sent in several chunks) while other workers
+    send small results."""
+    ops = [NEW, sub("big", "big", n)] + [sub(f"s{i}", "ok", i) for i in range(small)]
+    ops += [WAIT, ["probe"], shutdown(True)]
+    return P(f"big+small-w{mw}-n{n}-cap{cap}", pool(max_workers=mw, pipe_cap=cap), ops)
+
+
 def reusable_full_queue():
     """cpu_count=1 -> 3 call-queue slots; 3 workers -> 3 sentinels at shutdown."""
     return P("reuse-fullq", pool("reusable", 3, None, cpu_count=1),
